@@ -1,4 +1,4 @@
-From Coq Require Import List Arith Bool Lia.
+From Coq Require Import List Arith Bool Lia ZArith Permutation.
 From KV Require Import Base.Sx Gen.Generated Model.LazyInit.
 Import ListNotations.
 Close Scope Z_scope.
@@ -212,10 +212,48 @@ Proof. solve_serial. Qed.
 Lemma site_sensor_get_serial_ok S V (f : S -> V) s0 : serial_ok S V f s0 true site_sensor_get.
 Proof. solve_serial. Qed.
 
+(* hence each translated site, started from its freshly constructed state, under any interleaving of any number of
+   threads: nothing raises, every thread that returned has the single-thread value, initialised exactly once *)
+Lemma site_safe S V (f : S -> V) s0 keep body schedule : serial_ok S V f s0 keep body ->
+  let c := exec S V f body (mkSh None (Some s0) 0) schedule in
+  (forall t, c_th c t <> Failed) /\ (forall t lo, c_th c t = Done lo -> lres lo = Some (f s0)) /\
+  (c_lock c = None -> c_hist c <> [] -> ncomp (c_sh c) = 1).
+Proof.
+  intros Hok c.
+  destruct (guarded_lazy_init_safe S V f s0 keep body (mkSh None (Some s0) 0) schedule Hok) as (A & B & C & _).
+  - left. repeat split; reflexivity.
+  - split; [exact A|]. split; [exact B|]. intros Hl Hh. destruct (C Hl) as [_ D]. exact (D Hh).
+Qed.
+Lemma dask_dataset_safe S V (f : S -> V) s0 schedule :
+  let c := exec S V f site_dask (mkSh None (Some s0) 0) schedule in
+  (forall t, c_th c t <> Failed) /\ (forall t lo, c_th c t = Done lo -> lres lo = Some (f s0)) /\
+  (c_lock c = None -> c_hist c <> [] -> ncomp (c_sh c) = 1).
+Proof. apply (site_safe S V f s0 false). apply site_dask_serial_ok. Qed.
+Lemma spw_channel_freqs_safe S V (f : S -> V) s0 schedule :
+  let c := exec S V f site_spw (mkSh None (Some s0) 0) schedule in
+  (forall t, c_th c t <> Failed) /\ (forall t lo, c_th c t = Done lo -> lres lo = Some (f s0)) /\
+  (c_lock c = None -> c_hist c <> [] -> ncomp (c_sh c) = 1).
+Proof. apply (site_safe S V f s0 true). apply site_spw_serial_ok. Qed.
+Lemma sensor_get_safe S V (f : S -> V) s0 schedule :
+  let c := exec S V f site_sensor_get (mkSh None (Some s0) 0) schedule in
+  (forall t, c_th c t <> Failed) /\ (forall t lo, c_th c t = Done lo -> lres lo = Some (f s0)) /\
+  (c_lock c = None -> c_hist c <> [] -> ncomp (c_sh c) = 1).
+Proof. apply (site_safe S V f s0 true). apply site_sensor_get_serial_ok. Qed.
+
 Lemma sites_locked :
   site_dask_locked = true /\ site_spw_locked = true /\ site_sensor_get_locked = true /\
   sensor_setitem_locked = true /\ sensor_delitem_locked = true /\ sensor_contains_locked = true /\
   pool_get_locked = true /\ pool_put_locked = true /\ sensor_lock_reentrant = true.
+Proof. repeat split; reflexivity. Qed.
+
+(* the guard objects themselves: created once, in __init__, never replaced; of the kind the model assumes; and no
+   method other than the constructor touches a guarded field outside its lock (SensorCache: see sensor_unlocked_allowed) *)
+Lemma lock_discipline :
+  (site_dask_lock_kind = 1%Z /\ site_dask_lock_once = true /\ only_init site_dask_unlocked_methods = true) /\
+  (site_spw_lock_kind = 1%Z /\ site_spw_lock_once = true /\ only_init site_spw_unlocked_methods = true) /\
+  (sensor_lock_kind = 2%Z /\ sensor_lock_once = true /\ all_allowed sensor_unlocked_methods = true) /\
+  (pool_lock_kind = 1%Z /\ pool_lock_once = true /\ only_init pool_unlocked_methods = true) /\
+  pool_init_empty = true /\ pool_call_ok = true /\ s3_request_session_from_pool = true.
 Proof. repeat split; reflexivity. Qed.
 
 (* without the lock the same body is NOT safe: two threads, one schedule *)
@@ -233,105 +271,139 @@ Proof. unfold r_acquire, r_release. rewrite !Nat.eqb_refl. repeat split; reflexi
 Lemma rlock_excludes h t d : h <> t -> r_acquire (Some (h, d)) t = None /\ r_release (Some (h, d)) t = None.
 Proof. intros H. unfold r_acquire, r_release. apply Nat.eqb_neq in H. rewrite H. split; reflexivity. Qed.
 
+(* nested use by the holder: with the lock kind found in the source, ANY well-bracketed nest of `with self._lock:`
+   blocks run by the thread that is at depth d goes through and ends with the lock free *)
+Lemma nested_ok_rlock t : forall prog d, bracketed d prog = true ->
+  run_nest 2 (held_at t d) t prog = Some None.
+Proof.
+  induction prog as [|b r IH]; intros d H; simpl in *.
+  - apply Nat.eqb_eq in H. subst d. reflexivity.
+  - destruct b.
+    + replace (acquire_k 2 (held_at t d) t) with (Some (held_at t (Datatypes.S d))).
+      * apply IH. exact H.
+      * unfold acquire_k, r_acquire, held_at. simpl. destruct d; [reflexivity|]. rewrite Nat.eqb_refl. reflexivity.
+    + destruct d as [|d]; [discriminate|].
+      replace (r_release (held_at t (Datatypes.S d)) t) with (Some (held_at t d)).
+      * apply IH. exact H.
+      * unfold r_release, held_at. rewrite Nat.eqb_refl. destruct d; reflexivity.
+Qed.
+Lemma nested_ok t prog : bracketed 0 prog = true -> run_nest sensor_lock_kind None t prog = Some None.
+Proof. intros H. exact (nested_ok_rlock t prog 0 H). Qed.
+(* with a plain lock the very first nested lookup of a virtual sensor blocks for ever *)
+Lemma nested_plain_lock_refuted : exists prog, bracketed 0 prog = true /\ run_nest 1 None 0 prog = None.
+Proof. exists [true; true; false; false]. split; reflexivity. Qed.
+
 (* ---------- pool ---------- *)
+Definition items (p : pool) : list nat := p_free p ++ map snd (p_held p).
 Definition pool_inv (p : pool) : Prop :=
-  NoDup (p_free p ++ map snd (p_held p)) /\ forall x, In x (p_free p ++ map snd (p_held p)) -> x < p_next p.
+  p_err p = false /\ NoDup (items p) /\ forall x, In x (items p) -> x < p_next p.
 
-Lemma in_rm_held t x l y : In y (map snd (rm_held t x l)) -> In y (map snd l).
+Lemma take_item_split code free x r : (code = 1%Z \/ code = 2%Z) -> take_item code free = TItem x r ->
+  exists l1 l2, free = l1 ++ x :: l2 /\ r = l1 ++ l2.
 Proof.
-  induction l as [|h r IH]; simpl; [auto|].
-  destruct (Nat.eqb (fst h) t && Nat.eqb (snd h) x)%bool; simpl; [auto|]. intros [H|H]; auto.
+  intros [->| ->]; simpl.
+  - destruct (rev free) as [|y q] eqn:E; [discriminate|]. intros H. injection H as <- <-.
+    apply (f_equal (@rev nat)) in E. rewrite rev_involutive in E. simpl in E.
+    exists (rev q), []. rewrite app_nil_r. split; [exact E|reflexivity].
+  - destruct free as [|y q]; [discriminate|]. intros H. injection H as <- <-. exists [], q. split; reflexivity.
 Qed.
 
-Lemma nodup_rm_held t x l : NoDup (map snd l) -> NoDup (map snd (rm_held t x l)).
+Lemma take_item_nonempty code free : free <> [] -> (code = 1%Z \/ code = 2%Z) -> take_item code free <> TRaise.
 Proof.
-  induction l as [|h r IH]; simpl; intros H; [constructor|].
-  inversion H as [|? ? Hn Hr]; subst.
-  destruct (Nat.eqb (fst h) t && Nat.eqb (snd h) x)%bool; [exact Hr|]. simpl. constructor.
-  - intros Hin. apply Hn. eapply in_rm_held. exact Hin.
-  - apply IH. exact Hr.
+  intros Hne [->| ->]; simpl.
+  - destruct (rev free) as [|y q] eqn:E; [|discriminate].
+    apply (f_equal (@rev nat)) in E. rewrite rev_involutive in E. contradiction.
+  - destruct free; [contradiction|discriminate].
 Qed.
 
-Lemma rm_held_removes t x l : NoDup (map snd l) -> In (t, x) l -> ~ In x (map snd (rm_held t x l)).
+Lemma rm_held_perm t x l : In (t, x) l -> Permutation (map snd l) (x :: map snd (rm_held t x l)).
 Proof.
-  induction l as [|h r IH]; simpl; intros ND Hin; [contradiction|].
-  inversion ND as [|? ? Hn Hr]; subst.
-  destruct Hin as [->|Hin].
-  - simpl. rewrite !Nat.eqb_refl. simpl. exact Hn.
-  - destruct (Nat.eqb (fst h) t && Nat.eqb (snd h) x)%bool eqn:E.
-    + apply andb_true_iff in E. destruct E as [_ E]. apply Nat.eqb_eq in E.
-      exfalso. apply Hn. rewrite E. exact (in_map snd r (t, x) Hin).
-    + simpl. intros [H|H].
-      * apply Hn. rewrite H. exact (in_map snd r (t, x) Hin).
-      * apply (IH Hr Hin H).
+  induction l as [|h r IH]; simpl; intros Hin; [contradiction|].
+  destruct (Nat.eqb (fst h) t && Nat.eqb (snd h) x)%bool eqn:E.
+  - apply andb_true_iff in E. destruct E as [_ E]. apply Nat.eqb_eq in E. rewrite E. apply Permutation_refl.
+  - destruct Hin as [->|Hin]; [simpl in E; rewrite !Nat.eqb_refl in E; discriminate|].
+    simpl. eapply perm_trans; [apply perm_skip; apply IH; exact Hin|apply perm_swap].
 Qed.
 
-Lemma find_held_in t (l : list (nat * nat)) x' t' : find (fun h => Nat.eqb (fst h) t) l = Some (t', x') -> In (t, x') l /\ t' = t.
+Lemma find_held_in t (l : list (nat * nat)) x' t' : find (fun h => Nat.eqb (fst h) t) l = Some (t', x') -> In (t, x') l.
 Proof.
   induction l as [|h r IH]; simpl; [discriminate|].
   destruct (Nat.eqb (fst h) t) eqn:E.
-  - intros H. injection H as ->. apply Nat.eqb_eq in E. simpl in E. subst. split; [left; reflexivity|reflexivity].
-  - intros H. destruct (IH H) as [A B]. split; [right; exact A|exact B].
+  - intros H. injection H as ->. apply Nat.eqb_eq in E. simpl in E. subst. left; reflexivity.
+  - intros H. right. exact (IH H).
 Qed.
 
-Lemma nodup_app_iff {A} (a b : list A) :
-  NoDup (a ++ b) <-> NoDup a /\ NoDup b /\ (forall x, In x a -> ~ In x b).
+Lemma inv_of_perm p p' : pool_inv p -> p_err p' = p_err p -> p_next p' = p_next p ->
+  Permutation (items p') (items p) -> pool_inv p'.
 Proof.
-  induction a as [|h a IH]; simpl.
-  - split; [intros H; repeat split; [constructor|exact H|intros x []]|intros (_ & H & _); exact H].
-  - split.
-    + intros H. inversion H as [|? ? Hn Hr]; subst. apply IH in Hr. destruct Hr as (Ha & Hb & Hd).
-      repeat split; [constructor; [intros Hin; apply Hn; apply in_or_app; left; exact Hin|exact Ha]|exact Hb|].
-      intros x [<-|Hx] Hxb; [apply Hn; apply in_or_app; right; exact Hxb|exact (Hd x Hx Hxb)].
-    + intros (Ha & Hb & Hd). inversion Ha as [|? ? Hn Hr]; subst. constructor.
-      * intros Hin. apply in_app_or in Hin. destruct Hin as [Hin|Hin]; [exact (Hn Hin)|exact (Hd h (or_introl eq_refl) Hin)].
-      * apply IH. repeat split; [exact Hr|exact Hb|intros x Hx; apply Hd; right; exact Hx].
+  intros (He & ND & Hlt) E1 E2 HP. repeat split.
+  - congruence.
+  - eapply Permutation_NoDup; [apply Permutation_sym; exact HP|exact ND].
+  - intros x Hx. rewrite E2. apply Hlt. eapply Permutation_in; [exact HP|exact Hx].
 Qed.
 
-Lemma pool_step_inv p o : pool_inv p -> pool_inv (pool_step p o).
+Lemma inv_of_new p t : pool_inv p ->
+  pool_inv (mkPool (p_free p) (Datatypes.S (p_next p)) ((t, p_next p) :: p_held p) (p_err p)).
 Proof.
-  intros [ND Hlt]. destruct o as [t|t]; simpl.
-  - destruct (rev (p_free p)) as [|x r] eqn:E.
-    + assert (p_free p = []) as Ef by (apply (f_equal (@rev nat)) in E; rewrite rev_involutive in E; exact E).
-      rewrite Ef in *. simpl in *. split; simpl.
-      * constructor; [|exact ND]. intros Hin. specialize (Hlt _ Hin). lia.
-      * intros y [<-|Hy]; [lia|]. specialize (Hlt _ Hy). lia.
-    + assert (p_free p = rev r ++ [x]) as Ef
-        by (apply (f_equal (@rev nat)) in E; rewrite rev_involutive in E; simpl in E; exact E).
-      rewrite Ef in *. split; simpl.
-      * apply nodup_app_iff in ND. destruct ND as (Hf & Hh & Hd).
-        apply nodup_app_iff in Hf. destruct Hf as (Hr & _ & Hrx).
-        apply nodup_app_iff. repeat split.
-        -- exact Hr.
-        -- constructor; [|exact Hh]. intros Hin. apply (Hd x); [apply in_or_app; right; left; reflexivity|exact Hin].
-        -- intros y Hy [Hxy|Hy2]; [subst y; apply (Hrx x Hy); left; reflexivity|].
-           apply (Hd y); [apply in_or_app; left; exact Hy|exact Hy2].
-      * intros y Hy. apply Hlt. rewrite <- app_assoc. simpl.
-        apply in_app_or in Hy. apply in_or_app. destruct Hy as [Hy|[<-|Hy]]; [left; exact Hy|right; left; reflexivity|right; right; exact Hy].
-  - destruct (find (fun h => Nat.eqb (fst h) t) (p_held p)) as [[t' x]|] eqn:F; [|split; assumption].
-    destruct (find_held_in _ _ _ _ F) as [Hin _]. simpl.
-    apply nodup_app_iff in ND. destruct ND as (Hf & Hh & Hd).
-    assert (Hxh : In x (map snd (p_held p))) by exact (in_map snd (p_held p) (t, x) Hin).
-    split.
-    + apply nodup_app_iff. repeat split.
-      * apply nodup_app_iff. repeat split; [exact Hf|constructor; [intros []|constructor]|].
-        intros y Hy [Hxy|[]]. subst y. exact (Hd x Hy Hxh).
-      * apply nodup_rm_held. exact Hh.
-      * intros y Hy Hy2. apply in_app_or in Hy. destruct Hy as [Hy|[Hxy|[]]].
-        -- apply (Hd y Hy). eapply in_rm_held. exact Hy2.
-        -- subst y. exact (rm_held_removes t x (p_held p) Hh Hin Hy2).
-    + intros y Hy. apply Hlt. apply in_app_or in Hy. apply in_or_app. destruct Hy as [Hy|Hy].
-      * apply in_app_or in Hy. destruct Hy as [Hy|[Hxy|[]]]; [left; exact Hy|subst y; right; exact Hxh].
-      * right. eapply in_rm_held. exact Hy.
+  intros (He & ND & Hlt). unfold pool_inv, items in *. simpl.
+  assert (Permutation (p_next p :: p_free p ++ map snd (p_held p)) (p_free p ++ p_next p :: map snd (p_held p))) as HP
+    by apply Permutation_middle.
+  repeat split.
+  - exact He.
+  - eapply Permutation_NoDup; [exact HP|]. constructor; [|exact ND]. intros Hin. specialize (Hlt _ Hin). lia.
+  - intros x Hx. eapply Permutation_in in Hx; [|apply Permutation_sym; exact HP].
+    destruct Hx as [<-|Hx]; [lia|]. specialize (Hlt _ Hx). lia.
+Qed.
+
+Lemma pool_step_inv ce cn cp p o : pool_codes_safe ce cn cp = true -> pool_inv p -> pool_inv (pool_step_c ce cn cp p o).
+Proof.
+  intros Hc Hi. unfold pool_codes_safe in Hc.
+  apply andb_true_iff in Hc. destruct Hc as [Hc Hp]. apply andb_true_iff in Hc. destruct Hc as [Hce Hcn].
+  apply Z.eqb_eq in Hce. subst ce.
+  assert (cn = 0%Z \/ cn = 1%Z \/ cn = 2%Z) as Hcn'.
+  { apply orb_true_iff in Hcn. destruct Hcn as [Hcn|Hcn]; [apply orb_true_iff in Hcn; destruct Hcn as [H|H]|];
+    [left|right; left|right; right]; apply Z.eqb_eq; assumption. }
+  assert (cp = 0%Z \/ cp <> 0%Z) as Hcp by lia. clear Hcn Hp.
+  destruct o as [t|t]; simpl.
+  - destruct (p_free p) as [|y q] eqn:Ef.
+    + simpl. rewrite <- Ef. apply inv_of_new. exact Hi.
+    + destruct Hcn' as [->|Hcn'].
+      * simpl. rewrite <- Ef. apply inv_of_new. exact Hi.
+      * destruct (take_item cn (y :: q)) as [| |x r] eqn:Et.
+        -- exfalso. revert Et. apply take_item_nonempty; [discriminate|exact Hcn'].
+        -- destruct Hcn' as [->| ->]; simpl in Et; [destruct (rev q ++ [y])%list; discriminate|discriminate].
+        -- destruct (take_item_split cn (y :: q) x r Hcn' Et) as (l1 & l2 & E1 & E2).
+           apply (inv_of_perm p); [exact Hi|reflexivity|reflexivity|].
+           unfold items. simpl. rewrite Ef, E1, E2. rewrite <- !app_assoc. simpl.
+           apply Permutation_app_head. symmetry. apply Permutation_middle.
+  - destruct (find (fun h => Nat.eqb (fst h) t) (p_held p)) as [[t' x]|] eqn:F; [|exact Hi].
+    pose proof (find_held_in _ _ _ _ F) as Hin. pose proof (rm_held_perm t x _ Hin) as HP.
+    apply (inv_of_perm p); [exact Hi|reflexivity|reflexivity|]. unfold items. simpl.
+    destruct Hcp as [->|Hne].
+    + simpl. rewrite <- app_assoc. simpl. apply Permutation_app_head. symmetry. exact HP.
+    + assert (give_back cp (p_free p) x = x :: p_free p) as -> by (unfold give_back; destruct cp; congruence).
+      simpl. eapply perm_trans; [apply Permutation_middle|]. apply Permutation_app_head. symmetry. exact HP.
 Qed.
 
 Lemma pool_inv_init : pool_inv pool_init.
-Proof. split; simpl; [constructor|intros x []]. Qed.
+Proof. repeat split; simpl; [constructor|intros x []]. Qed.
 
-(* every reachable pool state: no item is held twice or both held and free; items are conserved *)
+Lemma pool_codes_ok : pool_codes_safe pool_get_empty_code pool_get_nonempty_code pool_put_code = true.
+Proof. reflexivity. Qed.
+
+(* every reachable pool state: nothing raised; no item is held twice or both held and free; items are conserved *)
 Theorem pool_exclusive ops : pool_inv (fold_left pool_step ops pool_init).
 Proof.
   generalize pool_inv_init. generalize pool_init.
-  induction ops as [|o ops IH]; intros p H; simpl; [exact H|]. apply IH. apply pool_step_inv. exact H.
+  induction ops as [|o ops IH]; intros p H; simpl; [exact H|]. apply IH. apply pool_step_inv; [exact pool_codes_ok|exact H].
 Qed.
 
+(* the theorem discriminates: handing out the last free item WITHOUT removing it lends it twice; testing for emptiness
+   the wrong way round raises on the very first get *)
+Lemma pool_peek_refuted : exists ops, ~ NoDup (items (fold_left (pool_step_c 0 3 0) ops pool_init)).
+Proof.
+  exists [PGet 0; PPut 0; PGet 0; PGet 1]. vm_compute. intros H.
+  inversion H as [|? ? Hn _]; subst. apply Hn. left. reflexivity.
+Qed.
+Lemma pool_inverted_refuted : exists ops, p_err (fold_left (pool_step_c 1 0 0) ops pool_init) = true.
+Proof. exists [PGet 0]. reflexivity. Qed.
